@@ -187,11 +187,11 @@ def parse(sx, text):
     return out
 
 
-def parse_vtk(text):
+def parse_vtk(text, sx=None):
     lines = [ln.strip() for ln in text.split("\n")]
     i = next(k for k, ln in enumerate(lines) if ln.startswith("POINTS"))
     n = int(lines[i].split()[1])
-    pts = [[float(x) for x in lines[i + 1 + k].split()] for k in range(n)]
+    pts = [[num(sx, x) for x in lines[i + 1 + k].split()] for k in range(n)]
     j = next(k for k, ln in enumerate(lines) if ln.startswith("CELLS"))
     nc = int(lines[j].split()[1])
     cells = [[int(x) for x in lines[j + 1 + k].split()][1:] for k in range(nc)]
